@@ -326,6 +326,20 @@ def run(ctx, R):
                             isinstance(t, ast.Subscript) and src(
                                 t.slice) == x for t in n.targets):
                         sites.append(n)
+                        # every listed provider is handed to the guarded
+                        # write: the store is not skipped for some of them
+                        # (a provider left out loses its compare-and-swap)
+                        lp = getattr(n, '_parent', None)
+                        while lp is not None and not isinstance(
+                                lp, (ast.For, ast.While)):
+                            lp = getattr(lp, '_parent', None)
+                        sk = C.skip_conds(n, lp) if lp is not None else []
+                        R.ob('R5.2', cons + ':every-listed-provider-written',
+                             not sk,
+                             'each provider named by the request reaches the '
+                             'generation-guarded write (none is skipped)',
+                             [ast.unparse(e) for e, _p in sk] or 'ok',
+                             func=impl, node=n)
             else:
                 for c, recv, meth in C.mutator_sites(ctx, impl):
                     if src(recv) == x:
